@@ -105,6 +105,8 @@ class LV(Obj):
             if isinstance(other, LV):
                 a, b = (other, self) if reflected else (self, other)
                 return alg.compose([a, b])
+            if isinstance(other, T.Poly) and not reflected and (T.symbols(other) & alg.array_syms):
+                return T.app("apply", self.as_term(), other)
             if isinstance(other, T.Poly):
                 if reflected:  # a * A  -> Compose([Multiply(A.oshape, a), A])   (Linop.__rmul__)
                     return alg.compose([alg.make("sigpy.linop.Multiply", {"ishape": self.oshape, "mult": other}, st_conds=[]), self])
@@ -166,6 +168,8 @@ class LinAlg:
         self.classes = {c.qual: c for c in model.subclasses(LINOP)}
         self.depth = 0
         self.notes = []
+        # symbols known to hold arrays (so `A * y` is an application, not a scaling)
+        self.array_syms = {"input", "self.y", "self.x", "self.z", "x", "y", "v", "u", "output", "$x", "$input"}
 
     # ------------------------------------------------------------------ VN plumbing
     def vn(self, func, **kw):
